@@ -57,7 +57,7 @@ for p in allp:
         "thorough_cmd": "./check %s --tier thorough" % pid,
         "evidence_file": "/verif/evidence/%s.json" % pid,
         "replay_cmd_template": "./check %s --replay {path}" % pid,
-        "engine": "rapid" if pid != "C20" else "rapid+go-fuzz",
+        "engine": "rapid",
         "level_claimed": {"category": "exploration", "text": LEVEL, "design_ref": "DESIGN.md section 5/" + pid},
         "level_note": NOTE,
         "technique": TECH.get(pid, "rapid property-based testing"),
